@@ -472,6 +472,36 @@ fn gen_case(r: &mut Rng, prop: &str, seed: u64, idx: u64) -> Case {
         let nops = match (&script, prop) { (Some(sc), _) => sc.len() as u64, (None, "C05") => r.below(5), _ => r.below(8) };
         let mut forced = match prop { "C10" => Some(8u64), "C11" => Some(6), "C09" => Some(4), _ => None };
         if exhaustive { forced = None; }
+        // C09: in a quarter of the cases the history starts with a small campaign -- two parsed imports of one kind deleted (the
+        // first and a later one), then an import of that kind added: the insertion cursor of reorganise_generic must have followed
+        // both deletions
+        let mut queue: Vec<HOp> = vec![];
+        if prop == "C09" && !exhaustive && r.chance(1, 4) {
+            let cands: Vec<Sp> = [Sp::F, Sp::G, Sp::M].into_iter().filter(|s| nimp[s.code()] >= 2).collect();
+            if !cands.is_empty() {
+                let s = *r.pick(&cands);
+                let n = nimp[s.code()];
+                let b = 1 + r.below(n - 1);
+                if !(s == Sp::F && (probe_id == 0 || probe_id == b)) {
+                    queue.push(HOp::Delete(s, 0)); queue.push(HOp::Delete(s, b)); queue.push(HOp::AddImport(s, nfp(&mut fpc)));
+                    forced = None;
+                }
+            }
+        }
+        // C06 / C10: now and then an original function import is replaced by a built function, that function is deleted, and an
+        // import is added afterwards (the deleted slot lies in the region of the parsed imports but is no import any more)
+        if (prop == "C06" || prop == "C10") && !exhaustive && queue.is_empty() && r.chance(1, 6) {
+            let fimps: Vec<usize> = base.imports.iter().enumerate().filter(|(_, x)| x.0 == 0).map(|(k, _)| k).collect();
+            if !fimps.is_empty() {
+                let k = *r.pick(&fimps);
+                let fid = fimps.iter().position(|x| *x == k).unwrap() as u64;
+                if fid != probe_id {
+                    queue.push(HOp::ImportToLocal(k as u64, nfp(&mut fpc))); queue.push(HOp::Delete(Sp::F, fid)); queue.push(HOp::AddImport(Sp::F, nfp(&mut fpc)));
+                    forced = None;
+                }
+            }
+        }
+        let nops = nops.max(queue.len() as u64);
         for opn in 0..nops {
             let sp = pick_sp(r); let si = sp.code();
             let pick = |r: &mut Rng, v: &Vec<u64>, del: &Vec<u64>| -> Option<u64> {
@@ -480,7 +510,7 @@ fn gen_case(r: &mut Rng, prop: &str, seed: u64, idx: u64) -> Case {
                 if !live.is_empty() && !r.chance(1, 12) { Some(*r.pick(&live)) } else { Some(*r.pick(v)) }
             };
             let choice = forced.take().unwrap_or_else(|| r.below(14));
-            let op = if let Some(sc) = &script { sc[opn as usize].clone() } else { match choice {
+            let op = if let Some(sc) = &script { sc[opn as usize].clone() } else if !queue.is_empty() { queue.remove(0) } else { match choice {
                 0 | 1 => HOp::AddLocal(sp, nfp(&mut fpc)),
                 2 | 3 => HOp::AddImport(sp, nfp(&mut fpc)),
                 4 | 5 => { match pick(r, &known[si], &deleted[si]) { Some(id) if !(sp == Sp::F && id == probe_id) => HOp::Delete(sp, id), _ => continue } }
